@@ -11,6 +11,11 @@ code's rows must equal the model's rows one for one; theorem `c16_code_correct` 
 rationals.  A wrong answer on a rational list is always a VIOLATION (F4 / F4b were repaired in /repo, commits
 526383e, 41c095b; their inputs stay in the corpus as regression cases).
 
+Constructed-relation lists (general/Kauers path, exact): bases sign·g^a·h^b for multiplicatively independent
+generators (sqrt 2, 1+sqrt 2, golden ratio, 2+sqrt 3, 3, …) with exponents up to ±300; the lattice is the integer
+kernel of the exponent rows (plus parity) by construction, and the code's rows are judged - soundness AND
+completeness - by the verified `lattice_check` on the rational shadow list sign·2^a·3^b.  No enumeration bound.
+
 Algebraic lists (test tier, labelled as such): bases in one quadratic field ℚ(√D) (exact pair
 arithmetic in Lean, op `lattice_check_quad`): soundness exactly, completeness by enumeration of the box
 |eᵢ| ≤ bound; bases from several fields: soundness and box enumeration by sympy `minimal_polynomial`
@@ -32,6 +37,9 @@ TRUSTED = [
     "compiled polar-model agrees with the kernel semantics of the same definitions (relationHolds, latticeBasis, "
     "inIntSpan, independent, latticeAsCoded)",
     "harness: generator, conversion of rationals to sympy numbers, transport of integer rows as JSON",
+    "constructed-relation tier: the chosen generator pairs are multiplicatively independent, positive and non-torsion "
+    "(paper argument: unit of infinite order vs non-unit / coprime norms), so g -> 2, h -> 3 is an isomorphism of the "
+    "generated groups; sympy expand builds the exact bases",
     "algebraic tier only: sympy minimal_polynomial / evalf(80) for mixed-field bases; for ℚ(√D) the pair arithmetic "
     "of Polar/Lattice.lean is proved exact (relationHoldsQuad_iff) but completeness there is bounded enumeration (a "
     "test), and the harness' translation a + b*sqrt(D) -> sympy expression is trusted",
@@ -173,6 +181,80 @@ CORPUS_EXPR = [
 ]
 
 
+# constructed-relation family: bases sign_i * g^a_i * h^b_i with g, h positive real, non-torsion and
+# multiplicatively independent (a unit of infinite order next to a non-unit, or elements with coprime norms), so the
+# exponent lattice is exactly {e | a.e = 0, b.e = 0, sum_{sign_i<0} e_i even}: the exponent lattice of the rational
+# "shadow" list sign_i * 2^a_i * 3^b_i, which the verified procedures decide exactly - for exponents of any size.
+GEN_PAIRS = [("sqrt2", "3"), ("sqrt2", "1+sqrt2"), ("1+sqrt2", "3"), ("1+sqrt2", "sqrt2"), ("phi", "2"), ("phi", "sqrt5"),
+             ("2+sqrt3", "5"), ("2+sqrt3", "sqrt3"), ("sqrt3", "2"), ("sqrt5", "3")]
+BIG_OK = {"sqrt2", "sqrt3", "sqrt5", "2", "3", "5"}       # generators whose large powers stay small expressions
+
+CORPUS_CONSTRUCTED = [
+    ("sqrt2", None, [1, -200], None, [1, 1]),            # sqrt(2), 1/2^100: the only generator is (200, 1)
+    ("sqrt2", None, [1, -256], None, [1, 1]),
+    ("sqrt2", None, [1, -300], None, [1, 1]),
+    ("sqrt2", None, [1, 200], None, [1, 1]),
+    ("sqrt2", "3", [1, 0, -200], [0, 1, 5], [1, 1, 1]),
+    ("sqrt2", "3", [1, -150, 0], [0, -150, 1], [1, 1, 1]),
+    ("sqrt3", "2", [1, -180], [0, -7], [1, 1]),
+    ("sqrt5", None, [3, -170], None, [1, -1]),
+    ("sqrt2", None, [3, -90, 64], None, [1, 1, -1]),
+    ("1+sqrt2", "3", [2, -3, 1], [0, 1, -1], [1, -1, 1]),
+    ("phi", "2", [5, -4, 2, 0], [1, 0, -3, 2], [1, 1, 1, 1]),
+    ("2+sqrt3", "5", [6, -5], [0, 1], [1, 1]),
+    ("sqrt2", "3", [1, 0, -2], [0, 1, -190], [1, 1, 1]),   # sqrt(2), 3, 1/(2*3^190)
+]
+
+
+def gen_constructed(r):
+    g, h = r.choice(GEN_PAIRS)
+    two = r.random() < 0.5
+    big = r.random() < 0.55 and g in BIG_OK and (not two or h in BIG_OK)
+    k = r.choice([2, 2, 3]) if big else r.choice([2, 3, 3, 4])
+    lim = 6 if not big else 12
+    a = [r.randint(-lim, lim) for _ in range(k)]
+    b = [r.randint(-lim, lim) if two and r.random() < 0.7 else 0 for _ in range(k)]
+    if big:
+        i = r.randrange(k)
+        a[i] = r.choice([-1, 1]) * 2 * r.randint(45, 150) if g in ("sqrt2", "sqrt3", "sqrt5") else r.choice([-1, 1]) * r.randint(60, 200)
+        if two and r.random() < 0.4:
+            b[r.randrange(k)] = r.choice([-1, 1]) * r.randint(60, 200)
+    # at least one base must be irrational (general path): an odd power of the irrational generator
+    if g in ("sqrt2", "sqrt3", "sqrt5") and all(x % 2 == 0 for x in a):
+        j = r.choice([i for i in range(k) if abs(a[i]) < 40] or [0])
+        a[j] = r.choice([1, 3, -1, 5])
+    if g in ("1+sqrt2", "phi", "2+sqrt3") and all(x == 0 for x in a):
+        a[0] = r.choice([1, 2, -1])
+    signs = [-1 if r.random() < 0.2 else 1 for _ in range(k)]
+    return (g, h if two else None, a, b if two else None, signs)
+
+
+def shadow(a, b, signs):
+    """the rational list sign_i * 2^a_i * 3^b_i as "p/q" strings"""
+    out = []
+    for i in range(len(a)):
+        v = Fr(2) ** a[i] * (Fr(3) ** b[i] if b else 1) * signs[i]
+        out.append(_fs(v))
+    return out
+
+
+def analyse_constructed(cases, timeout):
+    tasks = [{"fn": "harness.tasks.c16:constructed_case",
+              "args": {"g": g, "h": h, "a": a, "b": b or [0] * len(a), "signs": sg}} for g, h, a, b, sg in cases]
+    outs = run_tasks(tasks, timeout=timeout) if tasks else []
+    recs, reqs = [], []
+    for (g, h, a, b, sg), o in zip(cases, outs):
+        out = o["result"] if o["status"] == "ok" else {"status": o["status"], "etype": o.get("etype"), "message": o.get("message")}
+        sh = shadow(a, b, sg)
+        recs.append({"kind": "constructed", "g": g, "h": h, "a": a, "b": b, "signs": sg, "bases": sh,
+                     "exprs": out.get("exprs"), "out": out})
+        reqs.append({"op": "lattice_check", "bases": sh, "rows": out.get("basis", []) if out.get("status") == "ok" else []})
+    ans = model_batch_parallel(reqs)
+    for x, v in zip(recs, ans):
+        x["verdict"] = v
+    return recs
+
+
 def gen_quad(r):
     D = r.choice(list(QUAD_POOL))
     k = r.choice([1, 2, 2, 3, 3, 4])
@@ -270,6 +352,7 @@ def describe(rec):
 
 def replay_blob(rec):
     return {"kind": rec["kind"], "bases": rec["bases"], "how": rec.get("how"), "D": rec.get("D"),
+            "constructed": [rec.get("g"), rec.get("h"), rec.get("a"), rec.get("b"), rec.get("signs")] if rec["kind"] == "constructed" else None,
             "exprs": rec.get("exprs"), "bound": rec.get("bound"),
             "actual": rec["out"].get("basis"), "expected_lattice_basis": (rec.get("verdict") or {}).get("spec_basis"),
             "verdict": {k: v for k, v in (rec.get("verdict") or {}).items() if k != "spec_basis"},
@@ -433,6 +516,54 @@ def run(tier):
     chk.obligation("test:quadratic-field-lists", lean_ok and q_fail == 0 and q_pass > 0,
                    {"cases": len(qrecs), "pass": q_pass, "fail": q_fail,
                     "note": "soundness exact (pair arithmetic); completeness only inside the box |e_i| <= bound"})
+    # ---------------- constructed-relation tier: exact lattice known by construction, exponents up to +-300
+    n_con = 60 if quick else 1500
+    ccases = list(CORPUS_CONSTRUCTED)
+    cseen = {json.dumps(c) for c in ccases}
+    tries = 0
+    while len(ccases) < n_con + len(CORPUS_CONSTRUCTED) and tries < 50 * n_con:
+        tries += 1
+        c = gen_constructed(r)
+        if json.dumps(c) in cseen:
+            continue
+        cseen.add(json.dumps(c))
+        ccases.append(c)
+    crecs = analyse_constructed(ccases, 120 if quick else 400) if lean_ok else []
+    c_pass = c_fail = c_long = 0
+    for x in crecs:
+        chk.evaluations += 1
+        st = x["out"].get("status")
+        if st != "ok":
+            chk.count("constructed:" + str(st) + (":" + str(x["out"].get("etype")) if st == "error" else ""))
+            continue
+        v = x["verdict"]
+        if not v.get("ok"):
+            chk.count("harness-error")
+            chk.obligation("harness:polar-model", False, {"case": x["exprs"], "verdict": v})
+            continue
+        chk.count("constructed:branch:" + str(x["out"].get("branch")))
+        longest = max([abs(e) for row in v.get("spec_basis", []) for e in row] or [0])
+        if passes(v):
+            c_pass += 1
+            if v.get("spec_basis"):
+                chk.nontrivial.add(("constructed", x["g"], x["h"], tuple(x["a"]), tuple(x["b"] or ()), tuple(x["signs"])))
+            if longest >= 40:
+                c_long += 1
+                chk.sample({"constructed": [x["g"], x["h"]], "exponents": [x["a"], x["b"]], "signs": x["signs"],
+                            "bases": x["exprs"], "compute_basis": x["out"]["basis"], "kernel_basis": v["spec_basis"]},
+                           limit=2 + sum(1 for q in chk.samples if "constructed" not in q))
+        else:
+            c_fail += 1
+            if c_fail <= 6:
+                chk.violation(f"bases {x['exprs']} (= sign*{x['g']}^a" + (f"*{x['h']}^b" if x["h"] else "") +
+                              f", a={x['a']}" + (f", b={x['b']}" if x["h"] else "") + f", signs={x['signs']}): "
+                              f"compute_basis() = {x['out']['basis']} fails {'+'.join(failing_clauses(v))}; the exponent lattice "
+                              f"is the integer kernel of the exponent rows, basis {v.get('spec_basis')}"
+                              + (f"; relation not generated: {v.get('witness')}" if v.get("witness") else ""), replay_blob(x))
+    chk.obligation("oracle:constructed-relation-lists", lean_ok and c_fail == 0 and c_pass > 0,
+                   {"cases": len(crecs), "pass": c_pass, "fail": c_fail, "pass_with_generator_entry_ge_40": c_long,
+                    "note": "bases sign*g^a*h^b with multiplicatively independent generators: soundness AND completeness exactly "
+                            "(verified lattice_check on the rational shadow 2^a*3^b), no enumeration bound"})
     # ---------------- mixed-field tier (test, sympy exact arithmetic)
     ecases = CORPUS_EXPR
     erecs = analyse_expr(ecases, 150 if quick else 600) if lean_ok else []
@@ -521,6 +652,13 @@ def replay(path):
     if kind == "rational":
         x = analyse_rational([{"bases": blob["bases"], "how": blob.get("how") or "sympify"}])[0]
         print("bases:", x["bases"], " compute_basis():", x["out"].get("basis", x["out"]))
+        v = x["verdict"]
+        print("verdict:", {k: v.get(k) for k in ("shape_ok", "sound", "independent", "complete", "witness", "spec_basis")})
+        bad = x["out"].get("status") == "ok" and v.get("ok") and not passes(v)
+    elif kind == "constructed":
+        g, h, a, b, sg = blob["constructed"]
+        x = analyse_constructed([(g, h, a, b, sg)], 900)[0]
+        print("bases:", x["exprs"], " compute_basis():", x["out"].get("basis", x["out"]))
         v = x["verdict"]
         print("verdict:", {k: v.get(k) for k in ("shape_ok", "sound", "independent", "complete", "witness", "spec_basis")})
         bad = x["out"].get("status") == "ok" and v.get("ok") and not passes(v)
